@@ -97,7 +97,7 @@ func (a answer) String() string {
 func genGraph(r *driver.Run, n int, prev *model.G) (*model.G, string) {
 	t := r.T
 	g := model.NewG(n)
-	fam := t.Draw(10)
+	fam := t.Draw(13)
 	name := ""
 	switch fam {
 	case 0:
@@ -144,6 +144,47 @@ func genGraph(r *driver.Run, n int, prev *model.G) (*model.G, string) {
 				g.Add(i, (i+j)%n)
 			}
 		}
+	case 10, 11, 12:
+		// planted automorphism: a random permutation sigma of small order and a random union of
+		// orbits of vertex pairs under <sigma>; such graphs have non-trivial, non-obvious groups
+		sigma := make([]int, n)
+		rest := t.Perm(n)
+		for len(rest) > 0 {
+			l := 1 + t.Draw(4)
+			if l > len(rest) {
+				l = len(rest)
+			}
+			for i := 0; i < l; i++ {
+				sigma[rest[i]] = rest[(i+1)%l]
+			}
+			rest = rest[l:]
+		}
+		name = fmt.Sprintf("planted automorphism %v", sigma)
+		den := 1 + t.Draw(3)
+		done := map[[2]int]bool{}
+		for j := 0; j < n; j++ {
+			for i := 0; i < j; i++ {
+				if done[[2]int{i, j}] {
+					continue
+				}
+				take := t.Draw(4) < den
+				a, b := i, j
+				for {
+					x, y := a, b
+					if x > y {
+						x, y = y, x
+					}
+					if done[[2]int{x, y}] {
+						break
+					}
+					done[[2]int{x, y}] = true
+					if take {
+						g.Add(x, y)
+					}
+					a, b = sigma[a], sigma[b]
+				}
+			}
+		}
 	case 6:
 		if prev != nil && prev.N == n {
 			name = "relabelled copy of the previous graph"
@@ -169,7 +210,7 @@ func genGraph(r *driver.Run, n int, prev *model.G) (*model.G, string) {
 			}
 		}
 	}
-	if fam <= 5 && t.Chance(1, 2) && n > 1 {
+	if (fam <= 5 || fam >= 10) && t.Chance(1, 2) && n > 1 {
 		// relabel structured families so the structure is not aligned with the labels
 		p := t.Perm(n)
 		h := model.NewG(n)
@@ -229,7 +270,11 @@ func isPerm(p []int, n int) bool {
 
 func checkBrute(r *driver.Run, g *model.G, classVec []int, a answer, what string) {
 	n := g.N
-	auts := model.Automorphisms(g, classVec)
+	auts := model.AutomorphismsLimit(g, classVec, 60000)
+	if auts == nil {
+		r.Probe("group-too-large-for-brute-force")
+		return
+	}
 	// orbits of Aut(g)
 	lab := make([]int, n)
 	for i := range lab {
@@ -436,7 +481,7 @@ func runOne(r *driver.Run) {
 			if len(got.orbits) != n {
 				r.Fail("orbits", "orbit set has the wrong size", "%s: orbits %v", what, got.orbits)
 			}
-			if n <= 8 {
+			if n <= 9 {
 				checkBrute(r, g, classVec, got, what)
 			}
 			r.ObsInts(got.perm)
@@ -477,11 +522,11 @@ func main() {
 		Engine:   "canon-service",
 		Level:    "exploration",
 		Rule: "a case is one seeded history of up to 14 labelling requests through ONE reused CanonicalStorage/CanonicalOrderedPartition/CanonicalOptions triple of tape-chosen capacity N <= 9: graph sizes go up and down within capacity; families: edgeless, complete, cycle, complete bipartite, two copies of a random graph, circulants, relabelled copy of the previous graph, random densities; some requests carry vertex classes (an ordered partition, classes ascending) and some are 'interrupted' (CheckViability with tape-drawn ViableBits, which may return early and leave the partition mid-search before the next Reset). " +
-			"Each answer must equal the same call on fresh storage and CanonicalIsomorphFull (perm, orbit partition, generator list), perm must be a permutation, and for n <= 8 brute force over all (class-preserving) automorphisms must confirm orbits = orbits of Aut(g), every generator in Aut(g), closure of the generators = Aut(g). Non-trivial = at least 3 requests with at least one size change; distinct = distinct fingerprints of the observed answers.",
+			"Each answer must equal the same call on fresh storage and CanonicalIsomorphFull (perm, orbit partition, generator list), perm must be a permutation, and for n <= 9 (groups up to 60000 elements) brute force over all (class-preserving) automorphisms must confirm orbits = orbits of Aut(g), every generator in Aut(g), closure of the generators = Aut(g). Non-trivial = at least 3 requests with at least one size change; distinct = distinct fingerprints of the observed answers.",
 		Assumptions: []string{
 			"the caller protocol of the search package is followed: Reset(n, m, classes) before every call, sizes within the capacity the pair was created with, n >= 1",
 			"vertex classes are passed as ascending lists forming an ordered partition of the vertex set",
-			"brute force is limited to n <= 8 (n = 9 requests are compared with the fresh call only)",
+			"brute force is limited to n <= 9 and |Aut(g)| <= 60000 (larger groups, i.e. K9 / its complement, are compared with the fresh call only)",
 			"the 'orbits = Aut(g)' half is a per-input statement; it is checked on the graphs the histories visit",
 		},
 		Real:  []string{"graph.CanonicalIsomorphAllocated", "graph.CanonicalIsomorphFull", "graph.NewStorage / NewOrderedPartition / Reset", "disjoint.Set"},
